@@ -44,6 +44,10 @@ def build(tier):
     v("indexmap", "indexmap::IndexMap<String, St>", ["indexmap::IndexMap::new()", '[("k".to_string(), St { a: 1, b_c: "x".into() })].into_iter().collect()'], deps=["St"])
     v("indexmap", "indexmap::IndexSet<Ue>", ["[Ue::Aa].into_iter().collect()"], deps=["Ue"])
     v("heapless", "heapless::Vec<i32, 4>", ["heapless::Vec::new()", "heapless::Vec::from_slice(&[1, 2]).unwrap()"])
+    out.append(scase("indexmap", "indexmap::IndexSet<Gp<St>>", "Array<Gp<St>>", deps=["Gp", "St"]))
+    out.append(scase("indexmap", "indexmap::IndexMap<String, Gp<St>>", "{ [key in string]?: Gp<St> }", deps=["Gp", "St"]))
+    out.append(scase("heapless", "heapless::Vec<Gp<St>, 4>", "Array<Gp<St>>", deps=["Gp", "St"]))
+    out.append(scase("tokio", "tokio::sync::Mutex<Gp<St>>", "Gp<St>", deps=["Gp", "St"]))
     out.append(scase("tokio", "tokio::sync::Mutex<St>", "St", deps=["St"]))
     out.append(scase("tokio", "tokio::sync::RwLock<Vec<St>>", "Array<St>", deps=["St"]))
     out.append(scase("tokio", "tokio::sync::OnceCell<Option<i32>>", "number | null"))
